@@ -1,4 +1,5 @@
 import BdModel.Proofs.Sched.Limit
+import BdModel.Proofs.Sched.Progress
 /-
   C15 — no more steps run at once than maxActiveRuns allows.
 -/
@@ -33,8 +34,29 @@ def demo1 : Cfg := { n := 2, node := fun _ => {}, maxActive := 1 }
 example : ((runActs demo1 (init demo1) (launch 0 ++ [.visitDecide 1])).map fun s => (executing demo1 s, s.loop)) =
     some (1, .scanning) := by decide
 
+
+/-- **C15 (the limit never prevents a run from completing) / deadlock freedom.** In every reachable
+    state of an unstopped, unfinished run — whatever `maxActiveRuns` is — something can move: either
+    some step is running and its worker has an enabled action (while its command runs: the command's
+    end), or one visit of the scheduling loop changes the state (launches a step or labels one). The
+    limit can therefore only ever make the loop wait for a running step, never for nothing. -/
+theorem C15_never_blocks (c : Cfg) (hw : WF c) (hrk : Ranked c) (hn : NoRep c) (s : State) (hr : Reach c s)
+    (hscan : s.loop = .scanning) (hnc : s.canceled = false) (hnf : isFinished c s = false) :
+    (∃ j, j < c.n ∧ (s.nd j).status = .running ∧ ∃ a s', step c s a = some s' ∧
+        (a = .setupDone j true ∨ a = .check j ∨ a = .execStart j ∨ a = .execEnd j true ∨ a = .postWrite j ∨
+         a = .retryWake j ∨ a = .tail j)) ∨
+    (∃ i s', step c s (.visitDecide i) = some s' ∧ s' ≠ s) := by
+  rcases Classical.em (∃ j, j < c.n ∧ (s.nd j).status = .running) with ⟨j, hj, hrun⟩ | hno
+  · exact Or.inl ⟨j, hj, hrun, worker_progress c hn s hr j hrun⟩
+  · exact Or.inr (scan_progress c hw hrk s hscan hnc hnf (fun j hj h => hno ⟨j, hj, h⟩))
+
+/-- non-vacuity: with k = 1 and the first step finished, the waiting second step is launched -/
+example : ((runActs demo1 (init demo1) (launch 0 ++ [.execEnd 0 true, .tail 0, .visitDecide 1])).map fun s => s.loop) =
+    some (.launching 1) := by decide
+
 end BdModel.P15
 
 #print axioms BdModel.P15.C15_running
 #print axioms BdModel.P15.C15
 #print axioms BdModel.P15.C15_workers
+#print axioms BdModel.P15.C15_never_blocks
